@@ -234,6 +234,7 @@ int main(int argc, char** argv) {
       evEmit(J().str("e", "Q").raw("p", pathJson(p)).str("f", f).raw("r", v));
     };
     int nTicks = 2 + r.upto(4);
+    std::string relist; // cgroup whose listing failed at the end of the previous tick
     for (int t = 0; t < nTicks; t++) {
       if (t > 0) {
         // between ticks: the tree changes, then the context is refreshed
@@ -254,6 +255,9 @@ int main(int argc, char** argv) {
         ctx.refresh();
         evEmit(J().str("e", "Refresh"));
       }
+      // the listing that failed at the end of the previous tick left nothing behind: this tick's listing is complete
+      if (!relist.empty() && W.nodes.count(relist)) query(relist, "children");
+      relist.clear();
       int nops = 4 + r.upto(25);
       for (int o = 0; o < nops; o++) {
         std::vector<std::string> paths; for (auto& [p, n] : W.nodes) paths.push_back(p);
@@ -265,6 +269,27 @@ int main(int argc, char** argv) {
         else { // the kernel changes the files of a cgroup, possibly in the middle of a tick
           Node nn = W.genNode(); nn.gen = W.nodes[p].gen; W.nodes[p] = nn; W.render(p);
           evEmit(J().str("e", "KC").raw("n", nodeJ(p, W.nodes[p])));
+        }
+      }
+      // last access of the tick (not of the last tick): the listing of one cgroup's directory fails half way - a control
+      // file vanishes between readdir returning its name and the fstatat on it (a controller being disabled); the file
+      // is back right afterwards.  Nothing of this listing is reported.
+      if (t + 1 < nTicks && r.chance(35)) {
+        std::vector<std::string> paths; for (auto& [p, n] : W.nodes) paths.push_back(p);
+        if (!paths.empty()) {
+          std::string p = r.pick(paths);
+          if (auto ref = ctx.addToCacheAndGet(Oomd::CgroupPath(W.fs.root(), p))) {
+            std::string dir = W.fs.abs(p), victim, saved; bool fired = false;
+            ip().onReaddir = [&](const std::string& d, const char* name) {
+              if (fired || d != dir) return;
+              std::string nm(name);
+              if (nm.rfind("memory.", 0) != 0 && nm.rfind("io.", 0) != 0) return;
+              fired = true; victim = nm; saved = W.fs.read(p, nm); W.fs.remove(p, nm);
+            };
+            (void)ref->get().children();
+            ip().onReaddir = nullptr;
+            if (fired) { W.fs.write(p, victim, saved); relist = p; evEmit(J().str("e", "ListFault").raw("p", pathJson(p)).str("file", victim)); }
+          }
         }
       }
     }
